@@ -11,7 +11,7 @@ CHECKS = {
          "property-based testing (Hypothesis histories + enumerated suite x version x EtM triples), FIFO model + reference receiver oracle",
          "Two real TLSConnection endpoints complete a pinned handshake for every negotiable (suite, version, EtM) triple; a generated history of writes, reads and "
          "record-size changes is compared with a FIFO model, and every record on the wire is re-opened by an independent reference receiver (vlib/refs) that also "
-         "checks the per-record plaintext length against the limit in force (user recordSize, RFC 8449 negotiated limit, TLS 1.3 padding); histories may end with the writer closing while data is undelivered and the reader asking for more than is left.",
+         "checks the per-record plaintext length against the limit in force (user recordSize, RFC 8449 negotiated limit, TLS 1.3 padding); histories may end with the writer closing while data is undelivered and the reader asking for more than is left; payloads handed over as bytearray must be unchanged afterwards, and a user padding callback must be honoured on the wire within the peer's limit.",
          "in-memory transport; reference ciphers/KDFs validated against OpenSSL CLI and RFC vectors; two dead suites (0x40, 0x6A) cannot be negotiated at all and are outside the domain",
          "DESIGN.md §4 C01"),
  "C02": ("fault_enumeration",
@@ -112,27 +112,27 @@ CHECKS = {
          "Well-formed encodings come from every handshake message sent in 16 real handshake flavours (harvested before protection, so encrypted-phase messages are included) and from create() with "
          "Hypothesis-drawn arguments for 18 message and 27 extension shapes. write(parse(b)) must equal b; every strict prefix, a byte appended inside or outside the outer length, and +-1 at every byte "
          "offset must raise a decode error or be itself well-formed (byte-identical re-encoding); oversize fields must make write() raise ValueError. Record headers, alerts, CCS, heartbeat, session-ticket payloads and SSLv2 messages are round-tripped at value level; "
-         "sequences of Parser calls are compared with a reference reader; re-used objects must write like fresh ones; libFuzzer campaigns (selector byte + bytes) record every input the oracle rejects and the check re-judges them in-process.",
+         "sequences of Parser calls are compared with a reference reader; re-used objects must write like fresh ones; delegated credentials are a codec of their own; empty vectors have known-answer encodings; libFuzzer campaigns (selector byte + bytes) record every input the oracle rejects and the check re-judges them in-process.",
          "message dispatch by type byte is out of scope (C06); NextProtocol padding content is opaque; record-layer framing is C14/C08",
          "DESIGN.md §4 C15"),
  "C16": ("exploration",
          "model-based stateful property testing of post-handshake traffic with a reference receiver following every key generation; adversarial control messages from a well-keyed sender",
          "Histories of writes/reads, KeyUpdate (requested or not, either side, crossing), post-handshake authentication requests, heartbeat requests and one final adversarial message (17 kinds) run on an established TLS 1.3 (and TLS 1.2) pair: "
          "the FIFO model holds after every step, heartbeat callbacks get exactly the request payloads, the server-side client chain changes only through a completed authentication and every context is consumed, both ends end with equal traffic secrets, and the reference receiver - rolling its secrets at every KeyUpdate it sees on the wire - "
-         "opens every record of both directions and ends at the same generation; adversarial messages must be answered with a fatal alert (RFC 6520 drop-silently cases must leave the data stream intact).",
+         "opens every record of both directions and ends at the same generation; adversarial messages must be answered with a fatal alert (RFC 6520 drop-silently cases must leave the data stream intact). read(max, 0) pump calls never return more than max, and an endpoint that sends control traffic and data, closes and disappears before the peer reads still gets its data and close delivered.",
          "reference receiver validated in C09; adversarial sender is a real endpoint using _sendMsg with raw bytes",
          "DESIGN.md §4 C16"),
  "C17": ("fault_enumeration",
          "fault enumeration by stream offset on scripted sockets (EOF / ECONNRESET / EPIPE at every record boundary and header/body split of every flight, both endpoints, both directions) plus enumerated closure events in the data phase",
          "For 12 handshake flavours a fault-free run records both byte streams; the scripted socket then delivers/accepts exactly up to offset o and faults, for o over every record boundary, +1..+5, middle and last byte of every record x fault kind x endpoint x direction. "
          "The interrupted call must raise a socket/abrupt-close error (or the peer's queued alert), the connection be closed, no handshake reported complete, the session absent or non-resumable; the peer may complete only if it held the victim's complete last flight. "
-         "Data phase: close_notify / warning / fatal alert / EOF / EOF inside a record after k data records x closeSocket x ignoreAbruptClose: orderly close gives empty reads, closed-connection error on write and a resumable session; truncation is never a clean end; fatal alerts surface with their description; close() waiting for the peer's close_notify with peer traffic in flight and a courtesy close_notify hitting a dead transport stay orderly.",
+         "Data phase: close_notify / warning / fatal alert / EOF / EOF inside a record after k data records x closeSocket x ignoreAbruptClose: orderly close (close_notify at any alert level) gives empty reads, closed-connection error on write and a resumable session; truncation is never a clean end; fatal alerts surface with their description; close() waiting for the peer's close_notify with peer traffic in flight and a courtesy close_notify hitting a dead transport stay orderly. The peer aborting the handshake with an unprotected fatal alert at every record position where that is possible must surface as exactly that remote alert.",
          "sendall() is blocking-complete; TLS 1.3 'complete last flight' is located with the reference receiver (first record under application keys)",
          "DESIGN.md §4 C17"),
  "C18": ("exploration",
          "model-based property testing of sequential histories + schedule-controlled concurrency (settrace scheduler with cooperative locks, generated and bounded-exhaustive schedules) + stress",
-         "Sequential SessionCache histories (set/get/advance-clock/invalidate, small id alphabets so ids repeat, small maxEntries/maxAge) are compared step by step with a dictionary-with-ages model; 2-3 threads x <= 3 operations on one SessionCache, VerifierDB or Python_RSAKey run under a "
-         "scheduler that owns every line-level preemption point and lock hand-over: results must be explainable by a program-order-respecting sequential order, RSA private operations must equal pow(m, d, n); results and a quiescent read-back must be linearizable (real-time order from a logical clock); every placement of one switch over the whole run and of two switches in the first 40 (thorough 80) points is enumerated for fixed programs; "
+         "Sequential SessionCache histories (set/get/advance-clock/invalidate, small id alphabets so ids repeat, maxEntries 1..6, small maxAge) are compared step by step with a dictionary-with-ages model; 2-3 threads x <= 3 operations on one SessionCache, VerifierDB or Python_RSAKey run under a "
+         "scheduler that owns every line-level preemption point and every lock the objects create (also lazily, on a key that is fresh in every case): results must be explainable by a program-order-respecting sequential order, RSA private operations must equal pow(m, d, n); results and a quiescent read-back must be linearizable (real-time order from a logical clock); every placement of one switch over the whole run and of two switches in the first 40 (thorough 80) points is enumerated for fixed programs; "
          "free-running stress runs check invariants only.",
          "line-level preemption under the GIL; boundary cases age == maxAge and exactly maxEntries-1 newer stores are 'either'",
          "DESIGN.md §4 C18"),
@@ -140,15 +140,15 @@ CHECKS = {
          "property-based testing: snapshot purity/idempotence checks, enumerated out-of-domain values, and an under-approximating compatibility model vs real loopback handshakes",
          "validate() is run on lattice-constructed settings with a deep snapshot before/after (also when it raises), validate(validate(s)) is compared field-wise, results may name only loaded back-ends; every documented field is set to "
          "out-of-domain values (35 fields, 6 cross-field combinations) and must raise ValueError; settings pairs for which an independent under-approximating model finds a witness (highest common version, suite, group, signature scheme, key size) "
-         "and every listed suite pinned on both sides must complete a handshake.",
+         "every listed suite pinned on both sides, and endpoints sharing an external PSK (two- or three-element configuration form, with or without a server certificate), a PSK mode, a suite of the PSK's hash and a group must complete a handshake.",
          "the compatibility model never counts unclassifiable pairs against the code; two listed-but-dead suites (0x40, 0x6A) are an open known finding",
          "DESIGN.md §4 C19"),
  "C20": ("exploration",
          "exhaustive enumeration of (suite, version, role) with an IANA-table oracle, reference receiver and reference PRF; MITM rewriting for undefined pairs",
          "Every suite id the library lists x every version is enumerated: defined pairs are negotiated between pinned endpoints and their records re-opened by a reference "
-         "receiver keyed with the REGISTERED cipher/key size/MAC/tag/PRF (any mismatch makes authentication fail), Finished is recomputed with the registered PRF, key-exchange "
+         "receiver keyed with the REGISTERED cipher/key size/MAC/tag/PRF (any mismatch makes authentication fail), the master secret is recomputed from the observed premaster secret (DHE also over a 1032-bit group, so odd-length secrets occur) and Finished from it with the registered PRF, key-exchange "
          "messages and certificate presence are checked on the wire, accessor names compared with the table (TLS 1.3: also after KeyUpdate in both directions); single cipher/MAC names between all-version endpoints and sessions re-offered to a server capped at a lower version must announce registered pairs; undefined pairs are attacked from both roles and must be refused.",
-         "IANA table typed in and cross-checked against openssl ciphers -stdname; 'defined in version' only where RFCs are explicit; premaster secrets not observable",
+         "IANA table typed in and cross-checked against openssl ciphers -stdname; 'defined in version' only where RFCs are explicit; the premaster secret is observed by a harness-side wrapper around tlsconnection.calc_key (arguments pass through unchanged)",
          "DESIGN.md §4 C20"),
 }
 
